@@ -15,7 +15,7 @@ mkdir -p "$S/repo/zzprobe" && cp "$V/sim/probe/probe.qi.idl" "$S/repo/zzprobe/" 
 cd "$S/repo" || fail "cd"
 go run ./meta/cmd/stub --idl zzprobe/probe.qi.idl --output zzprobe/probe_stub_gen.go >"$S/gen.log" 2>&1 || { cat "$S/gen.log" >&2; fail "probe generation failed"; }
 [ -s zzprobe/probe_stub_gen.go ] || { cat "$S/gen.log" >&2; fail "probe generation produced nothing"; }
-"$V/bin/simrewrite" -maps -sites "$S/sites.txt" -root . -pkgs bus,bus/net,bus/directory,bus/session,bus/services,bus/util,zzprobe,examples/space >"$S/rewrite.log" 2>&1 || { cat "$S/rewrite.log" >&2; fail "instrumentation failed"; }
+"$V/bin/simrewrite" -maps -sites "$S/sites.txt" -root . -pkgs bus,bus/net,bus/directory,bus/session,bus/services,bus/util,meta/signature,zzprobe,examples/space >"$S/rewrite.log" 2>&1 || { cat "$S/rewrite.log" >&2; fail "instrumentation failed"; }
 printf '\nrequire zzsim v0.0.0\n\nreplace zzsim => ../zzsim\n' >> go.mod
 cd "$S/harness" || fail "cd"
 cp "$S/repo/go.sum" . 2>/dev/null
